@@ -809,4 +809,16 @@ theorem finish_touches_named_class_only (s s' : Ca) (r r' : Rcn) (hne : r' ≠ r
       subst h
       exact get_set_ne s.classes rc' hne
 
+/-- Non-vacuity (the situation of corpus `system/c04-roll-two-krill-parents`): class 0 under parent `a`, class 1 under parent `p`,
+both in their old-key phase.  A `KeyRollFinish` for class 0 finishes class 0 - and leaves class 1 in its old-key phase: the
+confirmation `p` gave for class 1 must be booked under 1, not under the name 0 that `p` uses for it. -/
+example :
+    let k (i : Nat) : CertKey := ⟨i, { res := [1] }, false⟩
+    let s : Ca := { classes := [(0, { parent := 10, parentRcn := 0, keys := .rollOld (k 2) (k 1) }),
+                                (1, { parent := 11, parentRcn := 0, keys := .rollOld (k 4) (k 3) })],
+                    parents := [10, 11], nextClass := 2, hasRepo := true }
+    s.process (.keyrollFinish 0) = .ok [.key 0 .finished] ∧
+    ((s.apply (.key 0 .finished)).bind fun s' => get s'.classes 1) = get s.classes 1 ∧
+    ((s.apply (.key 0 .finished)).bind fun s' => (get s'.classes 0).map (·.keys.variant)) = some .active := by decide
+
 end KM.Props.C04
